@@ -170,12 +170,17 @@ func ruleFrmVariadic(c *Ctx, r *R) {
 	paths := m.in.ExecFunc(fd, canonParams(fd, "v", "ft", "xArgs", "xRets"))
 	pos := c.Pos(fd)
 	var direct, packed *State
+	var allPacked []*State
 	for _, p := range paths {
+		if p.Done == "panic" {
+			continue
+		}
 		cs := condStrings(p)
 		if strings.Contains(cs, "!ft.Variadic") && !strings.Contains(cs, "!!") {
 			direct = p
 		} else {
 			packed = p
+			allPacked = append(allPacked, p)
 		}
 	}
 	ready := func(p *State) *T {
@@ -193,25 +198,34 @@ func ruleFrmVariadic(c *Ctx, r *R) {
 	d := ready(direct)
 	r.check(d != nil && len(d.Args) == 4 && d.Args[2].String() == "xArgs" && d.Args[3].String() == "xRets", "non-variadic", pos, "callReady(v, ft, xArgs, xRets) unchanged",
 		"the non-variadic path of `call` does not forward xArgs/xRets unchanged to callReady")
-	pk := ready(packed)
-	if pk == nil || len(pk.Args) != 4 {
-		r.fail("variadic", pos, "the variadic path of `call` does not reach callReady")
-		return
-	}
-	r.check(linOf(pk.Args[2]).String() == "ft.Args", "variadic-count", pos, "the count handed on equals ft.Args for every xArgs",
-		"after packing, `call` hands callReady the count "+linOf(pk.Args[2]).String()+" instead of ft.Args: a well-formed variadic call is rejected or misaligned")
-	// stack: shrinks by nVarArgs and grows by one (the packed slice): stack length when callReady is called
-	lenAt := ""
-	for _, e := range packed.Eff {
-		if e.Kind == "call" && e.Value != nil && e.Value.Name == readyName {
-			break
+	// every variadic path (a fast path for "nothing to pack" included) hands on ft.Args with the
+	// stack at L - xArgs + ft.Args: a path that pushes the empty slice without checking that the
+	// fixed arguments are all there lets f() with a missing argument run on a misaligned frame
+	for pi, packed := range allPacked {
+		sfx := ""
+		if pi > 0 {
+			sfx = fmt.Sprintf(" #%d", pi+1)
 		}
-		if e.Kind == "stack" && strings.HasPrefix(e.Value.Name, "len=") {
-			lenAt = strings.TrimPrefix(strings.SplitN(e.Value.Name, " via", 2)[0], "len=")
+		pk := ready(packed)
+		if pk == nil || len(pk.Args) != 4 {
+			r.fail("variadic"+sfx, pos, "a variadic path of `call` ("+condStrings(packed)+") does not reach callReady")
+			continue
 		}
+		r.check(linOf(pk.Args[2]).String() == "ft.Args", "variadic-count"+sfx, pos, "the count handed on equals ft.Args for every xArgs",
+			"after packing, `call` hands callReady the count "+linOf(pk.Args[2]).String()+" instead of ft.Args: a well-formed variadic call is rejected or misaligned")
+		// stack: shrinks by nVarArgs and grows by one (the packed slice): stack length when callReady is called
+		lenAt := ""
+		for _, e := range packed.Eff {
+			if e.Kind == "call" && e.Value != nil && e.Value.Name == readyName {
+				break
+			}
+			if e.Kind == "stack" && strings.HasPrefix(e.Value.Name, "len=") {
+				lenAt = strings.TrimPrefix(strings.SplitN(e.Value.Name, " via", 2)[0], "len=")
+			}
+		}
+		r.check(lenAt == "<+L +ft.Args -xArgs>" || lenAt == "<+ft.Args +L -xArgs>", "variadic-stack"+sfx, pos, "len = L - (xArgs-ft.Args+1) + 1",
+			"a variadic path ("+condStrings(packed)+") leaves the stack at length "+lenAt+" instead of L-xArgs+ft.Args when it reaches callReady: the surplus arguments are not replaced by exactly one slice, or a call that lacks fixed arguments is let through (`7; v := f()` with f(a int, xs ...int) takes 7 as a)")
 	}
-	r.check(lenAt == "<+L +ft.Args -xArgs>" || lenAt == "<+ft.Args +L -xArgs>", "variadic-stack", pos, "len = L - (xArgs-ft.Args+1) + 1",
-		"the variadic path leaves the stack at length "+lenAt+" instead of L-xArgs+ft.Args: surplus arguments are not replaced by exactly one slice")
 	// the packed slice is freshly made and filled by copy
 	fresh := false
 	ast.Inspect(fd.Body, func(n ast.Node) bool {
@@ -653,6 +667,29 @@ func ruleFrmParamSlot(c *Ctx, r *R) {
 			})
 			return true
 		})
+	}
+	// ... and Shadow does always allocate: every path of lookup.Shadow moves an existing binding
+	// of the name aside (shadow) before Index hands out the slot — for every name, `_` included
+	if sps := c.pathsOf("lookup.Shadow"); len(sps) > 0 {
+		bad := ""
+		for _, p := range sps {
+			if p.Done == "panic" {
+				continue
+			}
+			moved := false
+			for _, e := range p.Eff {
+				if e.Kind == "call" && e.Value != nil && e.Value.Name == "lookup.shadow" {
+					moved = true
+				}
+			}
+			if !moved {
+				bad = condStrings(p)
+			}
+		}
+		r.check(bad == "", "Shadow always allocates", c.Pos(c.Func("lookup.Shadow")), "lookup.Shadow shadows on every path",
+			"lookup.Shadow skips the shadowing step on a path ("+bad+") and so returns the slot of an existing binding of that name: two `_` parameters share one slot, every later parameter is compiled one slot too low — third(_ int, _ int, x int) returns its second argument")
+	} else {
+		r.undecided("Shadow always allocates", "-", "lookup.Shadow not found")
 	}
 	if nShadow > 0 && nIndex == 0 {
 		r.ok("param slot", "each parameter is registered with Locals.Shadow (always allocates)")
